@@ -19,6 +19,13 @@ pub struct Cfg {
     pub workers: Vec<u8>,
     /// union lg_k per aggregator; last = root
     pub aggs: Vec<u8>,
+    /// update seed shared by every sketch and union of the run (9001 = the library default)
+    #[serde(default = "default_seed")]
+    pub seed: u64,
+}
+
+fn default_seed() -> u64 {
+    9001
 }
 
 #[derive(Clone, Serialize, Deserialize)]
@@ -156,22 +163,31 @@ impl Scenario for C06 {
             }
         }
         acts.extend(tail);
-        (Cfg { workers, aggs }, acts)
+        // one run in four uses a non-default update seed for the whole cluster
+        let seed = if rng.chance(1, 4) { rng.next_u64() | 1 } else { 9001 };
+        (Cfg { workers, aggs, seed }, acts)
     }
 
     fn execute(&self, cfg: &Cfg, acts: &[Act], st: &mut RunStats) -> Result<(), Violation> {
         if cfg.workers.is_empty() || cfg.aggs.len() < 2 {
             return Ok(());
         }
-        let mut workers: Vec<(CpcSketch, CpcModel)> = cfg.workers.iter().map(|&l| (CpcSketch::new(l.clamp(4, 16)), CpcModel::new(l.clamp(4, 16)))).collect();
-        let mut aggs: Vec<Agg> = cfg.aggs.iter().map(|&l| Agg { u: CpcUnion::new(l.clamp(4, 16)), model: AggModel::new(l.clamp(4, 16)) }).collect();
+        let seed = cfg.seed;
+        if crate::refhash::seed_hash(seed) == 0 {
+            return Ok(()); // documented as unusable
+        }
+        let mut workers: Vec<(CpcSketch, CpcModel)> = cfg.workers.iter().map(|&l| (CpcSketch::with_seed(l.clamp(4, 16), seed), CpcModel::new(l.clamp(4, 16)))).collect();
+        let mut aggs: Vec<Agg> = cfg.aggs.iter().map(|&l| Agg { u: CpcUnion::with_seed(l.clamp(4, 16), seed), model: AggModel::new(l.clamp(4, 16)) }).collect();
+        if seed != 9001 {
+            st.probe("non_default_update_seed");
+        }
         let root = aggs.len() - 1;
         let na = root;
         let nw = workers.len();
         let mut net: Vec<Msg> = vec![];
 
-        fn deliver(ag: &mut Agg, m: &Msg, st: &mut RunStats) -> Result<(), Violation> {
-            let sk = match lib_call("CpcSketch::deserialize", || CpcSketch::deserialize(&m.bytes))? {
+        let deliver = |ag: &mut Agg, m: &Msg, st: &mut RunStats| -> Result<(), Violation> {
+            let sk = match lib_call("CpcSketch::deserialize", || if seed == 9001 { CpcSketch::deserialize(&m.bytes) } else { CpcSketch::deserialize_with_seed(&m.bytes, seed) })? {
                 Ok(s) => s,
                 Err(e) => return Err(Violation::new("C06.valid_image_rejected", format!("aggregator could not deserialize an intact image: {e}"))),
             };
@@ -179,7 +195,7 @@ impl Scenario for C06 {
             st.lib_calls += 2;
             ag.model.add(m.lg_k, &m.m);
             Ok(())
-        }
+        };
 
         for act in acts {
             st.ticks += 1;
